@@ -406,6 +406,7 @@ static uint64_t grid_hash(REF_GRID g) {
 #define REC_CAP 600
 #define FREE_CAP 20000
 static int rec_count, accept_count, free_count, free_changed, rec_full;
+static char cur_pass = '-';
 static int wrap_on, wrap_depth, wrap_accepts;
 static uint64_t wrap_hash;
 
@@ -458,7 +459,64 @@ static void collect_stars(REF_GRID g) {
   }
 }
 
-static void print_stars(REF_GRID g) {
+/* the dumped cells of one group in an order that agrees with the adjacency order (most recently registered first) around
+   EVERY dumped node: the model keeps one registration order per cell store and each_ref_cell_having_node is that order
+   filtered by the node, so any topological order of the per-node chains reproduces every loop of the C over the star */
+static REF_INT ord_from[8 * STAR_MAX], ord_to[8 * STAR_MAX], ord_deg[STAR_MAX], ord_out[STAR_MAX];
+static char ord_done[STAR_MAX];
+static int star_index(REF_INT k, REF_INT cell) {
+  REF_INT i;
+  for (i = 0; i < star_n[k]; i++)
+    if (star_cell[k][i] == cell) return (int)i;
+  return -1;
+}
+static int order_stars(REF_CELL ref_cell, REF_INT k) {
+  REF_INT ne = 0, i, j, item, cell, n = star_n[k], nout = 0;
+  int prev, cur, cyclic = 0;
+  for (i = 0; i < n; i++) {
+    ord_deg[i] = 0;
+    ord_done[i] = 0;
+  }
+  for (j = 0; j < nnds; j++) {
+    prev = -1;
+    each_ref_cell_having_node(ref_cell, nds[j], item, cell) {
+      cur = star_index(k, cell);
+      if (cur < 0) continue;
+      if (prev >= 0 && ne < 8 * STAR_MAX) {
+        ord_from[ne] = prev;
+        ord_to[ne] = cur;
+        ord_deg[cur]++;
+        ne++;
+      }
+      prev = cur;
+    }
+  }
+  while (nout < n) {
+    int pick = -1;
+    for (i = 0; i < n; i++)
+      if (!ord_done[i] && 0 == ord_deg[i]) {
+        pick = (int)i;
+        break;
+      }
+    if (pick < 0) { /* a cycle: ref_cell_replace_node (ref_collapse_edge, ref_split_edge) re-registers a cell at ONE of its
+                       nodes only, after that the chains are no longer sub-sequences of one registration order */
+      cyclic = 1;
+      for (i = 0; i < n; i++)
+        if (!ord_done[i]) {
+          pick = (int)i;
+          break;
+        }
+    }
+    ord_done[pick] = 1;
+    ord_out[nout++] = star_cell[k][pick];
+    for (i = 0; i < ne; i++)
+      if (ord_from[i] == pick) ord_deg[ord_to[i]]--;
+  }
+  for (i = 0; i < n; i++) star_cell[k][i] = ord_out[i];
+  return !cyclic;
+}
+
+static void print_stars(REF_GRID g, int with_metric) {
   REF_NODE ref_node = ref_grid_node(g);
   REF_CELL cells[3];
   static const char *gname[] = {"T", "R", "E"};
@@ -467,6 +525,7 @@ static void print_stars(REF_GRID g) {
   cells[1] = ref_grid_tri(g);
   cells[2] = ref_grid_edg(g);
   for (k = 0; k < 3; k++) {
+    if (!order_stars(cells[k], k)) fprintf(out, " | X%s approx", gname[k]);
     fprintf(out, " | %s", gname[k]);
     for (i = 0; i < star_n[k]; i++) {
       fprintf(out, " %d", star_cell[k][i]);
@@ -478,9 +537,9 @@ static void print_stars(REF_GRID g) {
     REF_INT v = nds[i];
     if (!ref_node_valid(ref_node, v)) continue;
     fprintf(out, " %d:%d", v, ref_node_owned(ref_node, v) ? 1 : 0);
-    for (k = 0; k < 3; k++) {
+    for (k = 0; k < (with_metric ? REF_NODE_REAL_PER : 3); k++) { /* x y z, metric m[6], log metric l[6] */
       fputc(':', out);
-      h_pf(out, ref_node_xyz(ref_node, k, v));
+      h_pf(out, ref_node_real(ref_node, k, v));
     }
   }
 }
@@ -527,9 +586,22 @@ static void my_op(const char *phase, const char *kind, void *object, int n, cons
     each_ref_cavity_valid_seg(cav, i) for (k = 0; k < 2; k++) push_unique(nds, &nnds, 4 * STAR_MAX, ref_cavity_s2n(cav, k, i));
   }
   collect_stars(g);
-  fprintf(out, "rec %s node=%d surf=%d state=%d hash=%016llx sc=%d,%d,%d,%d | C", phase, ref_cavity_node(cav),
+  fprintf(out, "rec %s node=%d surf=%d state=%d hash=%016llx sc=%d,%d,%d,%d pass=%c", phase, ref_cavity_node(cav),
           ref_cavity_surf_node(cav), (int)ref_cavity_state(cav), (unsigned long long)grid_hash(g), cav->split_node0,
-          cav->split_node1, cav->collapse_node0, cav->collapse_node1);
+          cav->split_node1, cav->collapse_node0, cav->collapse_node1, cur_pass);
+  if (begin) { /* the thresholds of ref_grid_adapt the callers read, as they are now (ref_adapt_pass resets them) */
+    fprintf(out, " smd=%d adapt=", ref_grid_adapt(g, swap_max_degree));
+    h_pf(out, ref_grid_adapt(g, post_min_ratio));
+    fputc(',', out);
+    h_pf(out, ref_grid_adapt(g, post_max_ratio));
+    fputc(',', out);
+    h_pf(out, ref_grid_adapt(g, swap_min_quality));
+    fputc(',', out);
+    h_pf(out, ref_grid_adapt(g, collapse_quality_absolute));
+    fputc(',', out);
+    h_pf(out, ref_grid_adapt(g, split_quality_absolute));
+  }
+  fprintf(out, " | C");
   for (i = 0; i < ncen; i++) fprintf(out, " %d", cen[i]);
   if (begin) {
     fprintf(out, " | F");
@@ -543,7 +615,7 @@ static void my_op(const char *phase, const char *kind, void *object, int n, cons
     fprintf(out, " | RL");
     each_ref_list_item(ref_cavity_tri_list(cav), item) fprintf(out, " %d", ref_list_value(ref_cavity_tri_list(cav), item));
   }
-  print_stars(g);
+  print_stars(g, begin);
   fputc('\n', out);
 }
 
@@ -566,6 +638,7 @@ static void run_op(void) {
     if ('v' == *p) fprintf(out, "pass begin %016llx\n", (unsigned long long)grid_hash(ref_grid));
     h_budget = PASS_BUDGET;
     h_budget_exit = 1;
+    cur_pass = *p;
     switch (*p) {
       case 'v': s = ref_cavity_pass(ref_grid); break;
       case 'c': s = ref_collapse_pass(ref_grid); break;
